@@ -1755,9 +1755,219 @@ fn rollover_case(c: &mut Ctx, rt: &tokio::runtime::Runtime, fam: &str, idx: u64)
     c.eval(&("rollover", states[0], states[1], states[2], states[3], states[4], qtype));
 }
 
+/// One validation context is asked about several answers in a row: whatever it remembers of the first must not
+/// decide the second. The genuine answer and the same answer with its data altered under the very same RRSIG, in
+/// either order, and the same once more for an answer the upstream's DS / DNSKEY chain is involved in.
+fn context_reuse_case(c: &mut Ctx, rt: &tokio::runtime::Runtime, fam: &str, idx: u64) {
+    let mut rng = c.case_rng(fam, idx);
+    ctx::step("build world");
+    let world = match ctx::catch(|| build_world(&mut rng)) {
+        Ok(Ok((w_, _))) => Arc::new(w_),
+        Ok(Err(e)) => {
+            c.note(&format!("harness: world not built: {}", e));
+            return;
+        }
+        Err(pi) => {
+            c.violation(&format!("panic:{}", pi.site()), &format!("panic while signing a hierarchy: {} at {}:{}", pi.msg, pi.file, pi.line), c.replay_of(fam, idx, json!({})));
+            return;
+        }
+    };
+    let zi = *rng.pick(&[2usize, 5, 1]);
+    let (qname, qtype) = if zi == 1 { (world.zones[1].apex.clone(), T_SOA) } else { (nm(&[*rng.pick(&[&b"www"[..], b"mail"])], &world.zones[zi].apex), *rng.pick(&[T_A, T_TXT])) };
+    let genuine = world.respond(&qname, qtype);
+    if genuine.kind != "positive" {
+        return;
+    }
+    let mut forged = world.respond(&qname, qtype);
+    if !damage(&mut rng, &mut forged, "alter-rdata", &world, qtype) {
+        return;
+    }
+    let gw = to_wire(rng.u16(), &qname, qtype, &genuine);
+    let fw = to_wire(rng.u16(), &qname, qtype, &forged);
+    let forged_first = rng.bool();
+    let ex = json!({"query": format!("{} TYPE{}", w::name_text(&qname), qtype), "forged_first": forged_first});
+    let requests = Arc::new(AtomicU64::new(0));
+    let up = Upstream { world: world.clone(), fault: UpFault::None, requests: requests.clone(), rng: Mutex::new(Rng::new(&[c.seed ^ idx, 78])) };
+    let Ok(ta) = TrustAnchors::from_u8(world.anchor_text.as_bytes()) else { return };
+    let r = ctx::catch(|| {
+        let vc = ValidationContext::new(ta, up);
+        let run = |wire: &[u8]| -> &'static str {
+            let Ok(mut m) = Message::from_octets(wire.to_vec()) else { return "short" };
+            match rt.block_on(vc.validate_msg::<Vec<u8>, Vec<u8>>(&mut m)) {
+                Ok((s, _)) => state_name(s),
+                Err(_) => "Error",
+            }
+        };
+        let order: [&[u8]; 4] = if forged_first { [&fw, &gw, &fw, &gw] } else { [&gw, &fw, &gw, &fw] };
+        order.iter().map(|wire| run(wire)).collect::<Vec<_>>()
+    });
+    let states = match r {
+        Ok(s) => s,
+        Err(pi) => {
+            c.violation(&format!("panic:{}", pi.site()), &format!("panic validating several answers with one context: {} at {}:{}", pi.msg, pi.file, pi.line), c.replay_of(fam, idx, ex));
+            return;
+        }
+    };
+    let (g, f): (Vec<&str>, Vec<&str>) = if forged_first { (vec![states[1], states[3]], vec![states[0], states[2]]) } else { (vec![states[0], states[2]], vec![states[1], states[3]]) };
+    c.eval(&("context-reuse", zi, qtype, forged_first, states.clone()));
+    if f.iter().any(|s| *s == "Secure") {
+        c.violation(&format!("secure-with-altered-data:one-context:{}", if forged_first { "forged-first" } else { "after-the-genuine-answer" }), &format!("one validation context, answers in the order {}: the answer whose data was altered under the genuine RRSIG validates as {:?} (the genuine one as {:?})", if forged_first { "forged, genuine, forged, genuine" } else { "genuine, forged, genuine, forged" }, f, g), c.replay_of(fam, idx, ex));
+        return;
+    }
+    if g.iter().any(|s| *s != "Secure") {
+        c.violation(&format!("genuine-answer-refused:one-context:{}", if forged_first { "after-a-forged-one" } else { "genuine-first" }), &format!("one validation context, answers in the order {}: the genuine answer validates as {:?}", if forged_first { "forged, genuine, forged, genuine" } else { "genuine, forged, genuine, forged" }, g), c.replay_of(fam, idx, ex));
+        return;
+    }
+    c.count("context_reuse_cases", 1);
+}
+
+/// The validating client transport (`net::client::validator::Connection`): what it tells its caller through the AD
+/// bit is what the validator found, whatever the request's CD / DO / AD bits and whatever the upstream claims.
+fn client_transport_case(c: &mut Ctx, rt: &tokio::runtime::Runtime, fam: &str, idx: u64) {
+    use domain::net::client::validator as cv;
+    #[derive(Clone)]
+    struct FlagUp {
+        inner: Arc<Upstream>,
+        /// header bits the upstream sets / clears in what it sends: (AD, CD)
+        claim: (Option<bool>, Option<bool>),
+        qname: Vec<u8>,
+        qtype: u16,
+        fault: Option<&'static str>,
+        seed: u64,
+        /// whether the fault found something to damage in the answer
+        applied: Arc<std::sync::atomic::AtomicBool>,
+    }
+    impl SendRequest<RequestMessage<Vec<u8>>> for FlagUp {
+        fn send_request(&self, request_msg: RequestMessage<Vec<u8>>) -> Box<dyn GetResponse + Send + Sync> {
+            let Ok(msg) = request_msg.to_message() else { return Box::new(Pending(None)) };
+            let Ok(q) = msg.sole_question() else { return Box::new(Pending(None)) };
+            let qname = q.qname().to_vec().as_slice().to_vec();
+            let qtype = q.qtype().to_int();
+            let mut r = self.inner.world.respond(&qname, qtype);
+            let mine = w::lower(&qname) == w::lower(&self.qname) && qtype == self.qtype;
+            if mine {
+                if let Some(f) = self.fault {
+                    let mut rng = Rng::new(&[self.seed, 79]);
+                    if damage(&mut rng, &mut r, f, &self.inner.world, qtype) {
+                        self.applied.store(true, Ordering::SeqCst);
+                    }
+                }
+            }
+            let mut wire = to_wire(msg.header().id(), &qname, qtype, &r);
+            if mine {
+                if let Some(ad) = self.claim.0 {
+                    wire[3] = (wire[3] & !0x20) | if ad { 0x20 } else { 0 };
+                }
+                if let Some(cd) = self.claim.1 {
+                    wire[3] = (wire[3] & !0x10) | if cd { 0x10 } else { 0 };
+                }
+            }
+            match Message::from_octets(Bytes::from(wire)) {
+                Ok(m) => Box::new(Pending(Some(Ok(m)))),
+                Err(_) => Box::new(Pending(None)),
+            }
+        }
+    }
+    let mut rng = c.case_rng(fam, idx);
+    let world = match ctx::catch(|| build_world(&mut rng)) {
+        Ok(Ok((w_, _))) => Arc::new(w_),
+        _ => return,
+    };
+    let up = Arc::new(Upstream { world: world.clone(), fault: UpFault::None, requests: Arc::new(AtomicU64::new(0)), rng: Mutex::new(Rng::new(&[c.seed ^ idx, 80])) });
+    for k in 0..24 {
+        let zi = *rng.pick(&[2usize, 5, 3]);
+        let qname = nm(&[*rng.pick(&[&b"www"[..], b"mail", b"nope"])], &world.zones[zi].apex);
+        let qtype = *rng.pick(&[T_A, T_TXT]);
+        let (cd, dnssec_ok, ad) = (rng.bool(), rng.bool(), rng.chance(1, 3));
+        let fault = *rng.pick(&[None, None, Some("corrupt-signature"), Some("alter-rdata"), Some("pretend-unsigned")]);
+        let claim = (*rng.pick(&[None, Some(true), Some(true), Some(false)]), *rng.pick(&[None, Some(true), Some(false)]));
+        let applied = Arc::new(std::sync::atomic::AtomicBool::new(false));
+        let fu = FlagUp { inner: up.clone(), claim, qname: qname.clone(), qtype, fault, seed: c.seed ^ idx ^ k, applied: applied.clone() };
+        let Ok(ta) = TrustAnchors::from_u8(world.anchor_text.as_bytes()) else { return };
+        let ex = json!({"query": format!("{} TYPE{}", w::name_text(&qname), qtype), "request": {"cd": cd, "do": dnssec_ok, "ad": ad}, "answer_fault": fault, "upstream_claims": {"ad": claim.0, "cd": claim.1}, "zone": zi});
+        let res = ctx::catch(|| {
+            rt.block_on(async {
+                let vc = Arc::new(ValidationContext::new(ta, fu.clone()));
+                let conn = cv::Connection::<_, Vec<u8>, _>::new(fu.clone(), vc);
+                let mut mb = domain::base::message_builder::MessageBuilder::new_vec();
+                mb.header_mut().set_id(7);
+                mb.header_mut().set_rd(true);
+                mb.header_mut().set_cd(cd);
+                mb.header_mut().set_ad(ad);
+                let mut qb = mb.question();
+                qb.push((domain::base::name::Name::<Vec<u8>>::from_octets(qname.clone()).unwrap(), Rtype::from_int(qtype))).unwrap();
+                let mut rm = RequestMessage::new(qb.into_message()).unwrap();
+                if dnssec_ok {
+                    rm.set_dnssec_ok(true);
+                }
+                let mut gr = SendRequest::send_request(&conn, rm);
+                gr.get_response().await.map(|m| m.as_slice().to_vec()).map_err(|e| format!("{}", e))
+            })
+        });
+        let got = match res {
+            Err(pi) => {
+                c.violation(&format!("panic:{}", pi.site()), &format!("panic in the validating client transport: {} at {}:{}", pi.msg, pi.file, pi.line), c.replay_of(fam, idx, ex));
+                return;
+            }
+            Ok(g) => g,
+        };
+        // (a fault that found nothing to damage in this kind of answer left it genuine)
+        let fault = if applied.load(Ordering::SeqCst) { fault } else { None };
+        let secure_truth = fault.is_none() && zi != 3;
+        c.eval(&("client-transport", cd, dnssec_ok, ad, fault, claim, zi == 3, got.is_ok()));
+        match got {
+            Err(_) => c.count("client_transport_errors", 1),
+            Ok(m) => {
+                if m.len() < 12 {
+                    continue;
+                }
+                let (r_ad, rcode) = (m[3] & 0x20 != 0, m[3] & 0x0f);
+                // AD is the transport's word for "validated as secure": never without a validation that said so
+                if r_ad && (cd || !secure_truth) {
+                    let why = if cd { "the request had CD set, nothing was validated" } else if zi == 3 { "the data lies below an insecure delegation" } else { "the answer was tampered with" };
+                    c.violation(&format!("client-transport:ad-without-validation:{}", if cd { "cd-request" } else if zi == 3 { "insecure-zone" } else { "tampered-answer" }), &format!("the caller gets AD set although {} (request CD {} DO {} AD {}; upstream claimed AD {:?} CD {:?}; fault {:?})", why, cd, dnssec_ok, ad, claim.0, claim.1, fault), c.replay_of(fam, idx, ex));
+                    return;
+                }
+                if !cd && fault.is_some() && zi != 3 && rcode == 0 && m[6..8] != [0, 0] && fault != Some("pretend-unsigned") {
+                    c.violation("client-transport:bogus-data-handed-out", &format!("an answer damaged by [{}] reaches a caller that did not set CD with RCODE 0 and its answer section", fault.unwrap()), c.replay_of(fam, idx, ex));
+                    return;
+                }
+                if !cd && secure_truth && (ad || dnssec_ok) && !r_ad && rcode == 0 {
+                    c.count("client_transport_secure_answer_without_ad", 1);
+                }
+                if r_ad {
+                    c.count("client_transport_ad_set_after_validation", 1);
+                }
+                if cd && claim.0 == Some(true) {
+                    c.count("client_transport_upstream_ad_claim_with_cd_request", 1);
+                }
+                c.count("client_transport_responses", 1);
+            }
+        }
+    }
+}
+
 pub fn run(c: &mut Ctx) {
     let rt = tokio::runtime::Builder::new_current_thread().enable_all().build().unwrap();
-    c.families(2);
+    c.families(4);
+    let fam = "context-reuse";
+    let total = c.total(96, 6_000);
+    for idx in c.cases(fam, total) {
+        if c.out_of_time() {
+            break;
+        }
+        ctx::slot_write(idx, &format!("{}|case", fam), &[]);
+        context_reuse_case(c, &rt, fam, idx);
+    }
+    let fam = "client-transport";
+    let total = c.total(48, 3_000);
+    for idx in c.cases(fam, total) {
+        if c.out_of_time() {
+            break;
+        }
+        ctx::slot_write(idx, &format!("{}|case", fam), &[]);
+        client_transport_case(c, &rt, fam, idx);
+    }
     let fam = "rollover";
     let total = c.total(32, 640);
     for idx in c.cases(fam, total) {
@@ -1777,7 +1987,7 @@ pub fn run(c: &mut Ctx) {
         one_world(c, &rt, fam, idx);
     }
     if !c.replaying() {
-        for k in ["honest:positive", "honest:wildcard", "honest:nodata", "honest:nodata-ent", "honest:nodata-wildcard", "honest:nxdomain", "honest:cname", "damaged:corrupt-signature", "damaged:drop-proof", "damaged:expired", "upstream:corrupt-signature", "upstream:servfail", "rollover_withdrawn_key_refused", "expired_after_first_validation_refused", "replayed_wildcards_rejected", "forged_denials_rejected"] {
+        for k in ["honest:positive", "honest:wildcard", "honest:nodata", "honest:nodata-ent", "honest:nodata-wildcard", "honest:nxdomain", "honest:cname", "damaged:corrupt-signature", "damaged:drop-proof", "damaged:expired", "upstream:corrupt-signature", "upstream:servfail", "rollover_withdrawn_key_refused", "expired_after_first_validation_refused", "replayed_wildcards_rejected", "forged_denials_rejected", "context_reuse_cases", "client_transport_responses", "client_transport_ad_set_after_validation", "client_transport_upstream_ad_claim_with_cd_request"] {
             c.floor(k, 3);
         }
     }
